@@ -32,6 +32,9 @@ All == {[bps0 |-> b, script |-> q, family |-> "general"] : b \in {"None", "A", "
        \cup {[bps0 |-> "A", script |-> q, family |-> "stepend"] : q \in {<<"wait", "stepIn", "stepIn">>, <<"wait", "next", "next">>, <<"wait", "stepIn", "stepOut">>}}
        \cup {[bps0 |-> "A", script |-> <<"setBpsB", "wait", "continue", "wait", "continue", "wait">>, family |-> "twofile"]}
        \cup {[bps0 |-> "A", script |-> <<"wait", "stepIn">>, family |-> "linesdefault"]}
+       (* round 6: stepOut between a push and a pull inside a subroutine that calls another one afterwards; steps sent while running *)
+       \cup {[bps0 |-> "B", script |-> q, family |-> "stepoutpush"] : q \in {<<"wait", "stepOut">>, <<"wait", "stepOut", "stepIn">>, <<"wait", "stepIn", "stepOut">>}}
+       \cup {[bps0 |-> b, script |-> <<"runstep", "continue", "wait">>, family |-> "steprun"] : b \in {"A", "B"}}
        \cup {[bps0 |-> "A", script |-> <<"wait", "malformed:" \o k, "inspect">>, family |-> "malformed"] :
                k \in {"unknown_command", "variables_reference", "setbps_no_path", "setbps_line0", "completions_end", "event_message"}}
 VARIABLE x
